@@ -2,7 +2,7 @@
    The central one is C10_compile_spec: Snap.compile = the specification of SnapSpec.v on every valid sequence. *)
 From Coq Require Import List Arith NArith Bool Sorting.Sorted.
 Import ListNotations.
-From GB Require Import Snap Labels SnapProps SnapSpec SnapSpecProofs.
+From GB Require Import Snap Labels SnapProps SnapSpec SnapSpecProofs SnapTrunc.
 Local Open Scope N_scope.
 
 (* labels: duplicate free, sorted, and exactly (L ∪ added) ∖ removed — the swap-remove loop is a set difference *)
@@ -41,8 +41,8 @@ Proof. exact (compile_title_status i au title msg files rest). Qed.
 Print Assumptions C10_title_status.
 
 (* ---- the compiled state IS the documented interpretation, for every valid operation sequence ----
-   [valid_ids] (SnapSpec.v): full operation ids pairwise distinct, their first 14 characters pairwise distinct, and an
-   edit that names an operation by its full id names it by its first 14 characters too.  The right-hand sides are the
+   [valid_ids] (SnapSpec.v): full operation ids pairwise distinct — nothing about their first 14 characters, which two
+   operations of a bug may share (an edit finds its comment by the full id).  The right-hand sides are the
    independent specification of SnapSpec.v, the one the C10 checker compares the implementation with. *)
 Theorem C10_compile_spec ops o1 rest : ops = o1 :: rest -> is_create o1 = true -> valid_ids ops = true ->
   let s := compile ops in let first := op_id o1 in
@@ -97,11 +97,20 @@ Proof. exact (compile_meta_spec ops). Qed.
 Print Assumptions C10_metadata_spec.
 
 (* validity is decidable and what it says; it excludes a second create with the first id *)
-Theorem C10_valid_ids_meaning ops : valid_ids ops = true <->
-  NoDup (map snd (op_ids ops)) /\ NoDup (map fst (op_ids ops)) /\
-  (forall t a, In t (edit_targets ops) -> In a (op_ids ops) -> snd a = snd t -> fst a = fst t).
+Theorem C10_valid_ids_meaning ops : valid_ids ops = true <-> NoDup (map snd (op_ids ops)).
 Proof. exact (valid_ids_validP ops). Qed.
 Print Assumptions C10_valid_ids_meaning.
+
+(* the lookup through combined ids (14 characters of the operation id, first match wins) that git-bug used before the
+   repair does NOT compute the interpretation on every valid bug: there is a valid sequence (two add-comment operations
+   sharing 14 characters, an edit naming the second) on which it differs from the specification, and on which the
+   lookup by full id agrees with it *)
+Theorem C10_truncated_lookup_refuted :
+  exists ops o1 rest, ops = o1 :: rest /\ is_create o1 = true /\ NoDup (map snd (op_ids ops)) /\
+    s_comments (compile14 ops) <> spec_comments (op_id o1) ops /\
+    s_comments (compile ops) = spec_comments (op_id o1) ops.
+Proof. exact truncated_lookup_refuted. Qed.
+Print Assumptions C10_truncated_lookup_refuted.
 
 Theorem C10_valid_no_recreate o1 rest : NoDup (map snd (op_ids (o1 :: rest))) -> forall o, In o rest -> not_recreate (op_id o1) o.
 Proof. exact (valid_ids_no_recreate o1 rest). Qed.
@@ -119,10 +128,19 @@ Example C10_valid_example_state :
   map (fun e => kv_sort (snd e)) (s_extra s) = [[]; [(1, 4)]; []; []; []; []; []].
 Proof. vm_compute. repeat split. Qed.
 
-(* each hypothesis is needed (SnapSpecProofs.v): shared first 14 characters, an incoherent target, a repeated full id *)
-Example C10_head_collision_needed :
-  nodupb (map snd (op_ids ex_head_collision)) = true /\ coherent_targets ex_head_collision = true /\
-  nodupb (map fst (op_ids ex_head_collision)) = false /\
-  map c_msg (s_comments (compile ex_head_collision)) = [1; 9; 2] /\
-  map c_msg (spec_comments (1, 1) ex_head_collision) = [1; 1; 9].
-Proof. exact head_collision_needed. Qed.
+(* shared first 14 characters and "incoherent" targets no longer matter (SnapSpecProofs.v); a repeated full id does *)
+Example C10_head_collision_harmless :
+  valid_ids ex_head_collision = true /\ heads_distinct ex_head_collision = false /\
+  map c_msg (s_comments (compile ex_head_collision)) = [1; 1; 9] /\
+  map c_edits (s_comments (compile ex_head_collision)) = [0; 0; 1]%nat /\
+  s_comments (compile ex_head_collision) = spec_comments (1, 1) ex_head_collision /\
+  valid_ids ex_head_collision_other = true /\
+  map c_msg (s_comments (compile ex_head_collision_other)) = [1; 9] /\
+  s_actors (compile ex_head_collision_other) = [1; 2].
+Proof. exact head_collision_harmless. Qed.
+(* the same two sequences under the old lookup: the first comment is rewritten / the edit is dropped *)
+Example C10_truncated_lookup_drops_edit :
+  map c_msg (s_comments (compile14 ex14_other)) = [1; 2] /\ s_actors (compile14 ex14_other) = [1] /\
+  map c_msg (spec_comments (1, 1) ex14_other) = [1; 9] /\ fst (spec_actors_parts (1, 1) ex14_other) = [1; 2] /\
+  map c_msg (s_comments (compile ex14_other)) = [1; 9] /\ s_actors (compile ex14_other) = [1; 2].
+Proof. exact truncated_lookup_drops_edit. Qed.
